@@ -670,8 +670,12 @@ impl Compiler {
             catch_target: 0, // Will be patched
         });
 
-        // Compile body
-        self.compile_statement_impl(&for_of.body)?;
+        // Compile body. The iterator try handler occupies a slot on the runtime try stack, so
+        // it counts for the try depth that break/continue of inner loops truncate to.
+        self.try_depth += 1;
+        let body_result = self.compile_statement_impl(&for_of.body);
+        self.try_depth -= 1;
+        body_result?;
 
         // Pop iterator try handler (normal completion, no exception)
         self.builder.emit(Op::PopIterTry);
